@@ -198,6 +198,7 @@ structure TrkRun where
   now : Int := 0
   out : List String := []
   subs : Subs := initialSubs
+  scale : Int := 1        -- time unit = 1/scale second (op `s:<k>`); the TTL is given in seconds
 
 def evOfKey (k : String) : Ev × Nat :=
   if k = "C" then (.created, 1) else if k = "U" then (.updated, 2) else (.deleted, 3)
@@ -211,7 +212,8 @@ def trkOp (r : TrkRun) (op : String) : TrkRun :=
   let emit (st : TrkState) (s : String) : TrkRun := { r with st := st, out := r.out ++ [s ++ " " ++ showTrkState st] }
   match op.splitOn ":" with
   | ["t", n] => { r with now := parseInt n }
-  | ["l", n] => { r with st := { r.st with ttl := if n = "N" then none else some (parseInt n) } }
+  | ["l", n] => { r with st := { r.st with ttl := if n = "N" then none else some (parseInt n * r.scale) } }
+  | ["s", k] => { r with scale := parseInt k, st := { r.st with ttl := r.st.ttl.map (· / r.scale * parseInt k) } }
   | ["c"] => let (st, evs) := cleanup r.st r.now; emit st ("c[" ++ showEvs evs ++ "]" ++ showCalls r.subs evs)
   | ["p", m] =>
     let (st, evs, t) := popTrack r.st (parseInt m)
